@@ -1,5 +1,438 @@
-(* GENERATED by harness/C05.py translate(): translate/pycapture2coq.py could not digest
-   /tmp/mt-25037-21692/psiaudio/pipeline.py *)
-From Coq Require Import ZArith String.
-Definition translator_gap : Z :=
-  "Gap: line 858: the conversion of a request to samples / the capture_epoch call is not the pinned text"%string.
+(* GENERATED on every run by translate/pycapture2coq.py from /repo/psiaudio/pipeline.py
+   (coroutine capture_epoch, lines 631-711) - do not edit.
+   int(round(e)) = e on integers (the harness hands the model the effective integers)
+   pinned: `if hasattr(c, 'metadata'): ...` -> dropped
+   pinned: `info = info.copy()` -> info := info
+   pinned: `log.warning(m, epoch_samples, epoch_s0)` -> dropped
+   pinned: `m = 'Missed samples for epoch of %d samples starting at %d'` -> dropped
+   pinned: `md = info.pop('metadata', {})` -> md := info
+   extract_epochs: statements at lines [809, 810, 811, 812, 824, 831, 840, 841, 842, 874, 881, 899] do not write tlb / prior_samples / buffer_samples / data: not in the slice
+   pinned: `buffer_samples = round(buffer_size * fs)`
+   pinned: `epoch_coroutine = capture_epoch(t0, epoch_samples, info, epochs.append, fs)` -> epoch_coroutine := (extract_epochs_new_capture t0 epoch_samples (r_rid info))
+   pinned: `epoch_samples = round(total_epoch_size * fs)`
+   pinned: `epoch_samples = round(total_epoch_size * fs)` -> epoch_samples := (r_n info)
+   pinned: `if n_queued or n_invalid: ...`
+   pinned: `if n_remove or n_pop: ...`
+   pinned: `info['epoch_size'] = epoch_size if epoch_size is not None else info['duration']`
+   pinned: `info['poststim_time'] = poststim_time`
+   pinned: `info['prestim_time'] = prestim_time`
+   pinned: `key = (info['t0'], info.get('key', None))` -> key := (r_key info)
+   pinned: `key = (info['t0'], info.get('key', None))` -> key := info
+   pinned: `t0 = round((info['t0'] - prestim_time) * fs)`
+   pinned: `t0 = round((info['t0'] - prestim_time) * fs)` -> t0 := (r_lo info)
+   pinned: `total_epoch_size = info['epoch_size'] + poststim_time + prestim_time`
+   pinned: the stacking of the epochs of one send + target(merged) + epochs[:] = [] -> Model.stack_ok kind
+*)
+From Coq Require Import ZArith List Bool.
+From PV Require Import Common.PySlice Extract.Model.
+Import ListNotations.
+Open Scope Z_scope.
+
+(* what target(...) receives: the joined pieces, or the empty "missed" PipelineData (s0, metadata identity) *)
+Inductive ce_out := OTarget (d : list Z) | OMissed (s0 md : Z).
+
+(* the locals of the coroutine that live from one send to the next *)
+Record ce_state := mk_ce_state { ce_epoch_s0 : Z; ce_epoch_samples : Z; ce_info : Z; ce_auto_send : bool; ce_accumulated_data : list (list Z); ce_current_s0 : Z; ce_md : Z }.
+
+(* the statements before `while True:` *)
+Definition capture_epoch_init (epoch_s0 : Z) (epoch_samples : Z) (info : Z) (auto_send : bool) : ce_state :=
+  let accumulated_data := [] in
+  let current_s0 := epoch_s0 in
+  let info := info in
+  let md := info in
+  mk_ce_state epoch_s0 epoch_samples info auto_send accumulated_data current_s0 md.
+
+Definition capture_epoch_default_auto_send : bool := false.
+
+(* one `slb, data = (yield)` iteration: new state, what target received (if called), whether `break` was reached *)
+Definition capture_epoch_step (st_ : ce_state) (slb : Z) (data : list Z) : ce_state * option ce_out * bool :=
+  let epoch_s0 := ce_epoch_s0 st_ in
+  let epoch_samples := ce_epoch_samples st_ in
+  let info := ce_info st_ in
+  let auto_send := ce_auto_send st_ in
+  let accumulated_data := ce_accumulated_data st_ in
+  let current_s0 := ce_current_s0 st_ in
+  let md := ce_md st_ in
+  let samples := (zlen data) in
+  if (current_s0 <? slb) then
+    let out_ := OMissed epoch_s0 md in
+    (mk_ce_state epoch_s0 epoch_samples info auto_send accumulated_data current_s0 md, Some out_, true)
+  else
+    if (current_s0 <=? (slb + samples)) then
+      let i := (current_s0 - slb) in
+      let d := (Z.min epoch_samples (samples - i)) in
+      let c := (py_slice (Some i) (Some (i + d)) data) in
+      let accumulated_data := (accumulated_data ++ [c]) in
+      let current_s0 := (current_s0 + d) in
+      let epoch_samples := (epoch_samples - d) in
+      if auto_send then
+        let accumulated_data := (concat accumulated_data) in
+        let out_ := OTarget accumulated_data in
+        let accumulated_data := [] in
+        if (epoch_samples =? 0%Z) then
+          (mk_ce_state epoch_s0 epoch_samples info auto_send accumulated_data current_s0 md, Some out_, true)
+        else
+          (mk_ce_state epoch_s0 epoch_samples info auto_send accumulated_data current_s0 md, Some out_, false)
+      else
+        if (epoch_samples =? 0%Z) then
+          let data := (concat accumulated_data) in
+          let out_ := OTarget data in
+          (mk_ce_state epoch_s0 epoch_samples info auto_send accumulated_data current_s0 md, Some out_, true)
+        else
+          (mk_ce_state epoch_s0 epoch_samples info auto_send accumulated_data current_s0 md, None, false)
+    else
+      (mk_ce_state epoch_s0 epoch_samples info auto_send accumulated_data current_s0 md, None, false).
+
+(* runs of the real coroutine (NumPy int64 chunks), send by send: state of the suspended frame, what target
+   received, StopIteration - checked here against the text above *)
+Example real_run_0 : capture_epoch_step (mk_ce_state 4%Z 5%Z 0%Z false [] 4%Z 0%Z) 2%Z [102%Z; 103%Z; 104%Z] = ((mk_ce_state 4%Z 4%Z 0%Z false [[104%Z]] 5%Z 0%Z), None, false).
+Proof. vm_compute. reflexivity. Qed.
+Example real_run_1 : capture_epoch_step (mk_ce_state 4%Z 4%Z 0%Z false [[104%Z]; []] 5%Z 0%Z) 5%Z [105%Z] = ((mk_ce_state 4%Z 3%Z 0%Z false [[104%Z]; []; [105%Z]] 6%Z 0%Z), None, false).
+Proof. vm_compute. reflexivity. Qed.
+Example real_run_2 : let r := capture_epoch_step (mk_ce_state 4%Z 3%Z 0%Z false [[104%Z]; []; [105%Z]] 6%Z 0%Z) 6%Z [106%Z; 107%Z; 108%Z; 109%Z] in (snd (fst r), snd r) = (Some (OTarget [104%Z; 105%Z; 106%Z; 107%Z; 108%Z]), true).
+Proof. vm_compute. reflexivity. Qed.
+Example real_run_3 : capture_epoch_step (mk_ce_state 4%Z 5%Z 0%Z true [] 4%Z 0%Z) 2%Z [102%Z; 103%Z; 104%Z] = ((mk_ce_state 4%Z 4%Z 0%Z true [] 5%Z 0%Z), Some (OTarget [104%Z]), false).
+Proof. vm_compute. reflexivity. Qed.
+Example real_run_4 : let r := capture_epoch_step (mk_ce_state 4%Z 3%Z 0%Z true [] 6%Z 0%Z) 6%Z [106%Z; 107%Z; 108%Z; 109%Z] in (snd (fst r), snd r) = (Some (OTarget [106%Z; 107%Z; 108%Z]), true).
+Proof. vm_compute. reflexivity. Qed.
+Example real_run_5 : let r := capture_epoch_step (mk_ce_state 1%Z 2%Z 0%Z false [] 1%Z 0%Z) 5%Z [105%Z; 106%Z] in (snd (fst r), snd r) = (Some (OMissed 1%Z 0%Z), true).
+Proof. vm_compute. reflexivity. Qed.
+Example real_run_6 : let r := capture_epoch_step (mk_ce_state 1%Z 2%Z 0%Z true [] 1%Z 0%Z) 5%Z [105%Z; 106%Z] in (snd (fst r), snd r) = (Some (OMissed 1%Z 0%Z), true).
+Proof. vm_compute. reflexivity. Qed.
+Example real_run_7 : let r := capture_epoch_step (mk_ce_state 3%Z 0%Z 0%Z false [] 3%Z 0%Z) 2%Z [102%Z; 103%Z; 104%Z; 105%Z] in (snd (fst r), snd r) = (Some (OTarget []), true).
+Proof. vm_compute. reflexivity. Qed.
+Example real_run_8 : capture_epoch_step (mk_ce_state 3%Z 0%Z 0%Z true [] 3%Z 0%Z) 0%Z [100%Z; 101%Z] = ((mk_ce_state 3%Z 0%Z 0%Z true [] 3%Z 0%Z), None, false).
+Proof. vm_compute. reflexivity. Qed.
+Example real_run_9 : capture_epoch_step (mk_ce_state 4%Z 4%Z 0%Z false [[104%Z]] 5%Z 0%Z) 5%Z [] = ((mk_ce_state 4%Z 4%Z 0%Z false [[104%Z]; []] 5%Z 0%Z), None, false).
+Proof. vm_compute. reflexivity. Qed.
+Example real_run_10 : capture_epoch_step (mk_ce_state 4%Z 4%Z 0%Z true [] 5%Z 0%Z) 5%Z [] = ((mk_ce_state 4%Z 4%Z 0%Z true [] 5%Z 0%Z), Some (OTarget []), false).
+Proof. vm_compute. reflexivity. Qed.
+Example real_run_11 : capture_epoch_step (mk_ce_state 4%Z 4%Z 0%Z true [] 5%Z 0%Z) 5%Z [105%Z] = ((mk_ce_state 4%Z 3%Z 0%Z true [] 6%Z 0%Z), Some (OTarget [105%Z]), false).
+Proof. vm_compute. reflexivity. Qed.
+Example real_run_12 : capture_epoch_step (mk_ce_state 3%Z 0%Z 0%Z false [] 3%Z 0%Z) 0%Z [100%Z; 101%Z] = ((mk_ce_state 3%Z 0%Z 0%Z false [] 3%Z 0%Z), None, false).
+Proof. vm_compute. reflexivity. Qed.
+Example real_run_13 : let r := capture_epoch_step (mk_ce_state 3%Z 0%Z 0%Z true [] 3%Z 0%Z) 2%Z [102%Z; 103%Z; 104%Z; 105%Z] in (snd (fst r), snd r) = (Some (OTarget []), true).
+Proof. vm_compute. reflexivity. Qed.
+Example real_run_14 : let r := capture_epoch_step (mk_ce_state 0%Z 6%Z 0%Z false [] 0%Z 0%Z) 0%Z [100%Z; 101%Z; 102%Z; 103%Z; 104%Z; 105%Z] in (snd (fst r), snd r) = (Some (OTarget [100%Z; 101%Z; 102%Z; 103%Z; 104%Z; 105%Z]), true).
+Proof. vm_compute. reflexivity. Qed.
+Example real_run_15 : let r := capture_epoch_step (mk_ce_state 0%Z 6%Z 0%Z true [] 0%Z 0%Z) 0%Z [100%Z; 101%Z; 102%Z; 103%Z; 104%Z; 105%Z] in (snd (fst r), snd r) = (Some (OTarget [100%Z; 101%Z; 102%Z; 103%Z; 104%Z; 105%Z]), true).
+Proof. vm_compute. reflexivity. Qed.
+Example real_run_16 : capture_epoch_step (mk_ce_state 2%Z 3%Z 0%Z false [] 2%Z 0%Z) 0%Z [100%Z] = ((mk_ce_state 2%Z 3%Z 0%Z false [] 2%Z 0%Z), None, false).
+Proof. vm_compute. reflexivity. Qed.
+Example real_run_17 : let r := capture_epoch_step (mk_ce_state 2%Z 3%Z 0%Z false [] 2%Z 0%Z) 4%Z [104%Z; 105%Z; 106%Z; 107%Z; 108%Z] in (snd (fst r), snd r) = (Some (OMissed 2%Z 0%Z), true).
+Proof. vm_compute. reflexivity. Qed.
+Example real_run_18 : capture_epoch_step (mk_ce_state 2%Z 3%Z 0%Z true [] 2%Z 0%Z) 0%Z [100%Z] = ((mk_ce_state 2%Z 3%Z 0%Z true [] 2%Z 0%Z), None, false).
+Proof. vm_compute. reflexivity. Qed.
+Example real_run_19 : let r := capture_epoch_step (mk_ce_state 2%Z 3%Z 0%Z true [] 2%Z 0%Z) 4%Z [104%Z; 105%Z; 106%Z; 107%Z; 108%Z] in (snd (fst r), snd r) = (Some (OMissed 2%Z 0%Z), true).
+Proof. vm_compute. reflexivity. Qed.
+Example real_run_20 : capture_epoch_step (mk_ce_state 5%Z 4%Z 0%Z false [] 5%Z 0%Z) 0%Z [100%Z; 101%Z; 102%Z; 103%Z; 104%Z; 105%Z; 106%Z] = ((mk_ce_state 5%Z 2%Z 0%Z false [[105%Z; 106%Z]] 7%Z 0%Z), None, false).
+Proof. vm_compute. reflexivity. Qed.
+Example real_run_21 : let r := capture_epoch_step (mk_ce_state 5%Z 2%Z 0%Z false [[105%Z; 106%Z]] 7%Z 0%Z) 4%Z [104%Z; 105%Z; 106%Z; 107%Z; 108%Z; 109%Z] in (snd (fst r), snd r) = (Some (OTarget [105%Z; 106%Z; 107%Z; 108%Z]), true).
+Proof. vm_compute. reflexivity. Qed.
+Example real_run_22 : capture_epoch_step (mk_ce_state 5%Z 4%Z 0%Z true [] 5%Z 0%Z) 0%Z [100%Z; 101%Z; 102%Z; 103%Z; 104%Z; 105%Z; 106%Z] = ((mk_ce_state 5%Z 2%Z 0%Z true [] 7%Z 0%Z), Some (OTarget [105%Z; 106%Z]), false).
+Proof. vm_compute. reflexivity. Qed.
+Example real_run_23 : let r := capture_epoch_step (mk_ce_state 5%Z 2%Z 0%Z true [] 7%Z 0%Z) 4%Z [104%Z; 105%Z; 106%Z; 107%Z; 108%Z; 109%Z] in (snd (fst r), snd r) = (Some (OTarget [107%Z; 108%Z]), true).
+Proof. vm_compute. reflexivity. Qed.
+Example real_run_24 : capture_epoch_step (mk_ce_state 6%Z 2%Z 0%Z false [] 6%Z 0%Z) 0%Z [100%Z; 101%Z; 102%Z] = ((mk_ce_state 6%Z 2%Z 0%Z false [] 6%Z 0%Z), None, false).
+Proof. vm_compute. reflexivity. Qed.
+Example real_run_25 : capture_epoch_step (mk_ce_state 6%Z 2%Z 0%Z false [] 6%Z 0%Z) 3%Z [103%Z; 104%Z; 105%Z] = ((mk_ce_state 6%Z 2%Z 0%Z false [[]] 6%Z 0%Z), None, false).
+Proof. vm_compute. reflexivity. Qed.
+Example real_run_26 : let r := capture_epoch_step (mk_ce_state 6%Z 2%Z 0%Z false [[]] 6%Z 0%Z) 6%Z [106%Z; 107%Z; 108%Z] in (snd (fst r), snd r) = (Some (OTarget [106%Z; 107%Z]), true).
+Proof. vm_compute. reflexivity. Qed.
+Example real_run_27 : capture_epoch_step (mk_ce_state 6%Z 2%Z 0%Z true [] 6%Z 0%Z) 0%Z [100%Z; 101%Z; 102%Z] = ((mk_ce_state 6%Z 2%Z 0%Z true [] 6%Z 0%Z), None, false).
+Proof. vm_compute. reflexivity. Qed.
+Example real_run_28 : capture_epoch_step (mk_ce_state 6%Z 2%Z 0%Z true [] 6%Z 0%Z) 3%Z [103%Z; 104%Z; 105%Z] = ((mk_ce_state 6%Z 2%Z 0%Z true [] 6%Z 0%Z), Some (OTarget []), false).
+Proof. vm_compute. reflexivity. Qed.
+Example real_run_29 : let r := capture_epoch_step (mk_ce_state 6%Z 2%Z 0%Z true [] 6%Z 0%Z) 6%Z [106%Z; 107%Z; 108%Z] in (snd (fst r), snd r) = (Some (OTarget [106%Z; 107%Z]), true).
+Proof. vm_compute. reflexivity. Qed.
+
+(* ---- extract_epochs: look-back bookkeeping (the slice of the loop body over tlb, prior_samples) ---- *)
+Definition extract_epochs_tlb0 : Z := 0%Z.
+Definition extract_epochs_prior_samples0 : list (Z * list Z) := [].
+
+(* one pass of the `while True:` at line 891: None = IndexError, else (prior_samples, `break` reached) *)
+Definition extract_epochs_prune_body (tlb : Z) (prior_samples : list (Z * list Z)) (buffer_samples : Z) : option (list (Z * list Z) * bool) :=
+  match prior_samples with
+  | [] => None
+  | oldest_samples :: _ =>
+    let tub := ((fst oldest_samples) + (zlen (snd oldest_samples))) in
+    if (tub <? (tlb - buffer_samples)) then
+      match prior_samples with
+      | [] => None
+      | _ :: prior_samples =>
+        Some (prior_samples, false)
+      end
+    else
+      Some (prior_samples, true)
+  end.
+
+Fixpoint extract_epochs_prune (fuel : nat) (tlb : Z) (prior_samples : list (Z * list Z)) (buffer_samples : Z) : option (list (Z * list Z)) :=
+  match fuel with
+  | O => None
+  | S fuel => match extract_epochs_prune_body tlb prior_samples buffer_samples with
+              | None => None
+              | Some (prior_samples, true) => Some prior_samples
+              | Some (prior_samples, false) => extract_epochs_prune fuel tlb prior_samples buffer_samples
+              end
+  end.
+
+(* what one send(data) does to tlb and prior_samples, in source order; None = the send raises IndexError there *)
+Definition extract_epochs_lookback (fuel : nat) (tlb : Z) (prior_samples : list (Z * list Z)) (buffer_samples : Z) (data : list Z) : option (Z * list (Z * list Z)) :=
+  let prior_samples := (prior_samples ++ [(tlb, data)]) in
+  let tlb := (tlb + (zlen data)) in
+  match extract_epochs_prune fuel tlb prior_samples buffer_samples with None => None | Some prior_samples =>
+  Some (tlb, prior_samples) end.
+
+(* epoch_coroutine = capture_epoch(t0, epoch_samples, info, epochs.append, fs) *)
+Definition extract_epochs_new_capture (t0 : Z) (epoch_samples : Z) (info : Z) : ce_state :=
+  capture_epoch_init t0 epoch_samples info capture_epoch_default_auto_send.
+
+(* sends of the real extract_epochs: tlb, prior_samples of the suspended frame before / after *)
+Example real_send_0 : extract_epochs_lookback 2 0%Z [] (-2)%Z [] = None.
+Proof. vm_compute. reflexivity. Qed.
+Example real_send_1 : extract_epochs_lookback 4 14%Z [(10%Z, [56%Z; 47%Z; 4%Z]); (13%Z, [77%Z])] 3%Z [95%Z; 4%Z; 94%Z; 22%Z] = Some (18%Z, [(14%Z, [95%Z; 4%Z; 94%Z; 22%Z])]).
+Proof. vm_compute. reflexivity. Qed.
+Example real_send_2 : extract_epochs_lookback 4 7%Z [(2%Z, [80%Z; 17%Z; 49%Z; 9%Z; 7%Z]); (7%Z, [])] 0%Z [12%Z; 86%Z; 47%Z; 76%Z] = Some (11%Z, [(7%Z, [12%Z; 86%Z; 47%Z; 76%Z])]).
+Proof. vm_compute. reflexivity. Qed.
+Example real_send_3 : extract_epochs_lookback 5 6%Z [(0%Z, [28%Z; 81%Z]); (2%Z, []); (2%Z, [34%Z; 81%Z; 46%Z; 38%Z])] 7%Z [47%Z; 12%Z; 97%Z; 69%Z; 53%Z] = Some (11%Z, [(2%Z, [34%Z; 81%Z; 46%Z; 38%Z]); (6%Z, [47%Z; 12%Z; 97%Z; 69%Z; 53%Z])]).
+Proof. vm_compute. reflexivity. Qed.
+Example real_send_4 : extract_epochs_lookback 3 6%Z [(0%Z, [25%Z; 93%Z; 52%Z; 68%Z; 69%Z; 87%Z])] 1%Z [78%Z; 87%Z; 11%Z; 54%Z; 42%Z] = Some (11%Z, [(6%Z, [78%Z; 87%Z; 11%Z; 54%Z; 42%Z])]).
+Proof. vm_compute. reflexivity. Qed.
+Example real_send_5 : extract_epochs_lookback 3 11%Z [(6%Z, [78%Z; 87%Z; 11%Z; 54%Z; 42%Z])] 1%Z [52%Z; 32%Z] = Some (13%Z, [(11%Z, [52%Z; 32%Z])]).
+Proof. vm_compute. reflexivity. Qed.
+Example real_send_6 : extract_epochs_lookback 3 13%Z [(11%Z, [52%Z; 32%Z])] 1%Z [81%Z; 37%Z; 12%Z; 5%Z; 75%Z] = Some (18%Z, [(13%Z, [81%Z; 37%Z; 12%Z; 5%Z; 75%Z])]).
+Proof. vm_compute. reflexivity. Qed.
+Example real_send_7 : extract_epochs_lookback 3 18%Z [(13%Z, [81%Z; 37%Z; 12%Z; 5%Z; 75%Z])] 1%Z [83%Z; 46%Z; 62%Z; 24%Z; 65%Z; 73%Z] = Some (24%Z, [(18%Z, [83%Z; 46%Z; 62%Z; 24%Z; 65%Z; 73%Z])]).
+Proof. vm_compute. reflexivity. Qed.
+Example real_send_8 : extract_epochs_lookback 3 3%Z [(0%Z, [76%Z; 95%Z; 50%Z])] 0%Z [11%Z; 77%Z; 85%Z; 57%Z; 57%Z; 48%Z] = Some (9%Z, [(3%Z, [11%Z; 77%Z; 85%Z; 57%Z; 57%Z; 48%Z])]).
+Proof. vm_compute. reflexivity. Qed.
+Example real_send_9 : extract_epochs_lookback 3 9%Z [(3%Z, [11%Z; 77%Z; 85%Z; 57%Z; 57%Z; 48%Z])] 0%Z [54%Z; 60%Z; 38%Z; 90%Z] = Some (13%Z, [(9%Z, [54%Z; 60%Z; 38%Z; 90%Z])]).
+Proof. vm_compute. reflexivity. Qed.
+Example real_send_10 : extract_epochs_lookback 3 3%Z [(0%Z, [92%Z; 22%Z; 2%Z])] 0%Z [46%Z; 24%Z; 32%Z; 64%Z] = Some (7%Z, [(3%Z, [46%Z; 24%Z; 32%Z; 64%Z])]).
+Proof. vm_compute. reflexivity. Qed.
+Example real_send_11 : extract_epochs_lookback 3 7%Z [(3%Z, [46%Z; 24%Z; 32%Z; 64%Z])] 0%Z [53%Z; 78%Z; 62%Z] = Some (10%Z, [(7%Z, [53%Z; 78%Z; 62%Z])]).
+Proof. vm_compute. reflexivity. Qed.
+
+(* ---- extract_epochs: one whole send (second batch).  Fixed glue: *)
+(* what epochs.append receives from the coroutine filed under `key`, as the model's item *)
+Definition ce_item (key : Z) (st : ce_state) (o : ce_out) : item :=
+  match o with
+  | OTarget d => {| i_key := key; i_rid := ce_md st; i_s0 := ce_epoch_s0 st; i_data := d; i_missed := false |}
+  | OMissed s0 md => {| i_key := key; i_rid := md; i_s0 := s0; i_data := []; i_missed := true |}
+  end.
+Definition out_items (key : Z) (st : ce_state) (o : option ce_out) : list item :=
+  match o with None => [] | Some x => [ce_item key st x] end.
+(* D[k] = v on an insertion-ordered dict: replaced in place, else appended *)
+Fixpoint dict_put {A} (k : Z) (v : A) (d : list (Z * A)) : list (Z * A) :=
+  match d with [] => [(k, v)] | x :: t => if fst x =? k then (k, v) :: t else x :: dict_put k v t end.
+Inductive xraise := RIndexError | RKeyError | RValueError | RDuplicate | RStack | RStop | RFuel.
+Inductive xres (A : Type) := XOk (a : A) | XRaise (e : xraise).
+Arguments XOk {A}. Arguments XRaise {A}.
+
+Record xe_state := mk_xe_state { xe_tlb : Z; xe_epoch_coroutines : list (Z * ce_state); xe_prior_samples : list (Z * list Z); xe_epochs : list item; xe_empty_queue_cb : bool }.
+
+(* the statements before `while True:`; empty_queue_cb: whether a callback was given *)
+Definition extract_epochs_init (empty_queue_cb : bool) : xe_state :=
+  let tlb := 0%Z in
+  let epoch_coroutines := [] in
+  let prior_samples := [] in
+  let epochs := [] in
+  mk_xe_state tlb epoch_coroutines prior_samples epochs empty_queue_cb.
+
+(* `while removed_queue:` at line 812 *)
+Fixpoint extract_epochs_drain (fuel : nat) (epoch_coroutines : list (Z * ce_state)) (removed_queue : list Z) (skip : list Z) (n_remove : Z) (n_pop : Z) : xres ((list (Z * ce_state)) * (list Z) * (list Z) * (Z) * (Z) * bool) :=
+  match fuel with
+  | O => XRaise RFuel
+  | S fuel =>
+    if is_nil removed_queue then XOk (epoch_coroutines, removed_queue, skip, n_remove, n_pop, false) else
+    match (
+      match removed_queue with
+      | [] => XRaise RIndexError
+      | info :: removed_queue =>
+        let key := info in
+        if (negb (has_key fst key epoch_coroutines)) then
+          let n_remove := (n_remove + 1%Z) in
+          let skip := (skip ++ [key]) in
+          XOk (epoch_coroutines, removed_queue, skip, n_remove, n_pop, false)
+        else
+          if has_key fst key epoch_coroutines then
+            let epoch_coroutines := del_key fst key epoch_coroutines in
+            let n_pop := (n_pop + 1%Z) in
+            XOk (epoch_coroutines, removed_queue, skip, n_remove, n_pop, false)
+          else XRaise RKeyError
+      end
+    ) with
+    | XRaise e_ => XRaise e_
+    | XOk (epoch_coroutines, removed_queue, skip, n_remove, n_pop, _) => extract_epochs_drain fuel epoch_coroutines removed_queue skip n_remove n_pop
+    end
+  end.
+
+(* `for (key, epoch_coroutine) in ...` at line 831: over the snapshot items_; true = StopIteration left the loop *)
+Fixpoint extract_epochs_deliver (items_ : list (Z * ce_state)) (tlb : Z) (epoch_coroutines : list (Z * ce_state)) (epochs : list item) (data : list Z) : xres ((list (Z * ce_state)) * (list item) * bool) :=
+  match items_ with
+  | [] => XOk (epoch_coroutines, epochs, false)
+  | (key, epoch_coroutine) :: items_ =>
+    match (
+      let '(co_, out_, fin_) := capture_epoch_step epoch_coroutine tlb data in
+      let epochs := epochs ++ out_items key epoch_coroutine out_ in
+      let epoch_coroutine := co_ in
+      let epoch_coroutines := dict_put key epoch_coroutine epoch_coroutines in
+      if fin_ then
+        if has_key fst key epoch_coroutines then
+          let epoch_coroutines := del_key fst key epoch_coroutines in
+          XOk (epoch_coroutines, epochs, false)
+        else XRaise RKeyError
+      else
+        XOk (epoch_coroutines, epochs, false)
+    ) with
+    | XRaise e_ => XRaise e_
+    | XOk (epoch_coroutines, epochs, true) => XOk (epoch_coroutines, epochs, true)
+    | XOk (epoch_coroutines, epochs, false) => extract_epochs_deliver items_ tlb epoch_coroutines epochs data
+    end
+  end.
+
+(* `for prior_sample in ...` at line 866: over the snapshot items_; true = StopIteration left the loop *)
+Fixpoint extract_epochs_replay (items_ : list (Z * list Z)) (epochs : list item) (key : Z) (epoch_coroutine : ce_state) : xres ((list item) * (ce_state) * bool) :=
+  match items_ with
+  | [] => XOk (epochs, epoch_coroutine, false)
+  | prior_sample :: items_ =>
+    match (
+      let '(co_, out_, fin_) := capture_epoch_step epoch_coroutine (fst prior_sample) (snd prior_sample) in
+      let epochs := epochs ++ out_items key epoch_coroutine out_ in
+      let epoch_coroutine := co_ in
+      if fin_ then
+        XOk (epochs, epoch_coroutine, true)
+      else
+        XOk (epochs, epoch_coroutine, false)
+    ) with
+    | XRaise e_ => XRaise e_
+    | XOk (epochs, epoch_coroutine, true) => XOk (epochs, epoch_coroutine, true)
+    | XOk (epochs, epoch_coroutine, false) => extract_epochs_replay items_ epochs key epoch_coroutine
+    end
+  end.
+
+(* `while queue:` at line 842 *)
+Fixpoint extract_epochs_intake (fuel : nat) (epoch_coroutines : list (Z * ce_state)) (prior_samples : list (Z * list Z)) (epochs : list item) (queue : list request) (skip : list Z) (n_queued : Z) (n_invalid : Z) : xres ((list (Z * ce_state)) * (list item) * (list request) * (list Z) * (Z) * (Z) * bool) :=
+  match fuel with
+  | O => XRaise RFuel
+  | S fuel =>
+    if is_nil queue then XOk (epoch_coroutines, epochs, queue, skip, n_queued, n_invalid, false) else
+    match (
+      match queue with
+      | [] => XRaise RIndexError
+      | info :: queue =>
+        let key := (r_key info) in
+        if (memz key skip) then
+          if memz key skip then
+            let skip := remove_first key skip in
+            let n_invalid := (n_invalid + 1%Z) in
+            XOk (epoch_coroutines, epochs, queue, skip, n_queued, n_invalid, false)
+          else XRaise RValueError
+        else
+          let n_queued := (n_queued + 1%Z) in
+          let epoch_samples := (r_n info) in
+          let t0 := (r_lo info) in
+          let epoch_coroutine := (extract_epochs_new_capture t0 epoch_samples (r_rid info)) in
+          match extract_epochs_replay prior_samples epochs key epoch_coroutine with
+          | XRaise e_ => XRaise e_
+          | XOk (epochs, epoch_coroutine, true) =>
+            XOk (epoch_coroutines, epochs, queue, skip, n_queued, n_invalid, false)
+          | XOk (epochs, epoch_coroutine, false) =>
+            if (has_key fst key epoch_coroutines) then
+              XRaise RDuplicate
+            else
+              let epoch_coroutines := (dict_put key epoch_coroutine epoch_coroutines) in
+              XOk (epoch_coroutines, epochs, queue, skip, n_queued, n_invalid, false)
+          end
+      end
+    ) with
+    | XRaise e_ => XRaise e_
+    | XOk (epoch_coroutines, epochs, queue, skip, n_queued, n_invalid, _) => extract_epochs_intake fuel epoch_coroutines prior_samples epochs queue skip n_queued n_invalid
+    end
+  end.
+
+(* one send(data): the loop body from `data = (yield)` to the next yield.  queue / removed_queue: their contents;
+   kind_: what the chunks are (Model.kind) - only the stacking depends on it *)
+Definition extract_epochs_send (fuel : nat) (kind_ : kind) (st_ : xe_state) (buffer_samples : Z) (data : list Z) (removed_queue : list Z) (queue : list request) (source_complete : bool)
+  : xres (xe_state * option (list item) * bool) :=
+  let tlb := xe_tlb st_ in
+  let epoch_coroutines := xe_epoch_coroutines st_ in
+  let prior_samples := xe_prior_samples st_ in
+  let epochs := xe_epochs st_ in
+  let empty_queue_cb := xe_empty_queue_cb st_ in
+  let target_arg := None in
+  let cb_called := false in
+  let prior_samples := (prior_samples ++ [(tlb, data)]) in
+  let skip := [] in
+  let n_remove := 0%Z in
+  let n_pop := 0%Z in
+  match extract_epochs_drain fuel epoch_coroutines removed_queue skip n_remove n_pop with
+  | XRaise e_ => XRaise e_
+  | XOk (epoch_coroutines, removed_queue, skip, n_remove, n_pop, true) =>
+    XRaise RStop
+  | XOk (epoch_coroutines, removed_queue, skip, n_remove, n_pop, false) =>
+    match extract_epochs_deliver epoch_coroutines tlb epoch_coroutines epochs data with
+    | XRaise e_ => XRaise e_
+    | XOk (epoch_coroutines, epochs, true) =>
+      XRaise RStop
+    | XOk (epoch_coroutines, epochs, false) =>
+      let n_queued := 0%Z in
+      let n_invalid := 0%Z in
+      match extract_epochs_intake fuel epoch_coroutines prior_samples epochs queue skip n_queued n_invalid with
+      | XRaise e_ => XRaise e_
+      | XOk (epoch_coroutines, epochs, queue, skip, n_queued, n_invalid, true) =>
+        XRaise RStop
+      | XOk (epoch_coroutines, epochs, queue, skip, n_queued, n_invalid, false) =>
+        let tlb := (tlb + (zlen data)) in
+        if (negb ((zlen epochs) =? 0%Z)) then
+          if stack_ok kind_ epochs then
+            let target_arg := Some epochs in
+            let epochs := [] in
+            match extract_epochs_prune fuel tlb prior_samples buffer_samples with
+            | None => XRaise RIndexError
+            | Some prior_samples =>
+              if (((source_complete && ((zlen queue) =? 0%Z)) && ((zlen epoch_coroutines) =? 0%Z)) && empty_queue_cb) then
+                let cb_called := true in
+                let empty_queue_cb := false in
+                XOk (mk_xe_state tlb epoch_coroutines prior_samples epochs empty_queue_cb, target_arg, cb_called)
+              else
+                XOk (mk_xe_state tlb epoch_coroutines prior_samples epochs empty_queue_cb, target_arg, cb_called)
+            end
+          else XRaise RStack
+        else
+          match extract_epochs_prune fuel tlb prior_samples buffer_samples with
+          | None => XRaise RIndexError
+          | Some prior_samples =>
+            if (((source_complete && ((zlen queue) =? 0%Z)) && ((zlen epoch_coroutines) =? 0%Z)) && empty_queue_cb) then
+              let cb_called := true in
+              let empty_queue_cb := false in
+              XOk (mk_xe_state tlb epoch_coroutines prior_samples epochs empty_queue_cb, target_arg, cb_called)
+            else
+              XOk (mk_xe_state tlb epoch_coroutines prior_samples epochs empty_queue_cb, target_arg, cb_called)
+          end
+      end
+    end
+  end.
+
+(* whole sends of the real extract_epochs (1-D NumPy chunks): state of the suspended frames before / after,
+   what target received, whether the callback was called, or the exception *)
+Example real_whole_send_0 : extract_epochs_send 8 (mkkind false false) (mk_xe_state 6%Z [(1%Z, (mk_ce_state 3%Z 2%Z 2%Z false [[44%Z; 82%Z; 10%Z]; []] 6%Z 2%Z)); (3%Z, (mk_ce_state 4%Z 3%Z 4%Z false [[82%Z; 10%Z]; []] 6%Z 4%Z)); (4%Z, (mk_ce_state 9%Z 5%Z 5%Z false [] 9%Z 5%Z)); (5%Z, (mk_ce_state 11%Z 5%Z 6%Z false [] 11%Z 6%Z))] [(0%Z, [0%Z; 61%Z; 83%Z; 44%Z; 82%Z; 10%Z]); (6%Z, [])] [] false) 5%Z [70%Z] [7%Z] [mkreq 6%Z 2%Z 5%Z 7%Z; mkreq 5%Z 11%Z 5%Z 8%Z] true = XRaise RDuplicate.
+Proof. vm_compute. reflexivity. Qed.
+Example real_whole_send_1 : extract_epochs_send 11 (mkkind false false) (mk_xe_state 11%Z [(1%Z, (mk_ce_state 17%Z 2%Z 3%Z false [] 17%Z 3%Z)); (2%Z, (mk_ce_state 16%Z 2%Z 4%Z false [] 16%Z 4%Z))] [(0%Z, [55%Z; 35%Z]); (2%Z, []); (2%Z, [55%Z; 88%Z; 28%Z; 64%Z; 80%Z; 37%Z]); (8%Z, [89%Z; 73%Z; 75%Z])] [] true) 9%Z [33%Z; 80%Z] [4%Z] [mkreq 2%Z 16%Z 2%Z 6%Z; mkreq 4%Z 18%Z 2%Z 7%Z; mkreq 5%Z 20%Z 2%Z 8%Z] true = XRaise RDuplicate.
+Proof. vm_compute. reflexivity. Qed.
+Example real_whole_send_2 : extract_epochs_send 7 (mkkind false false) (mk_xe_state 10%Z [(1%Z, (mk_ce_state 14%Z 4%Z 1%Z false [] 14%Z 1%Z)); (2%Z, (mk_ce_state 12%Z 4%Z 2%Z false [] 12%Z 2%Z))] [(8%Z, [80%Z; 39%Z])] [] false) 0%Z [2%Z; 32%Z; 4%Z; 1%Z; 2%Z; 93%Z] [4%Z] [mkreq 3%Z 7%Z 4%Z 3%Z; mkreq 4%Z 11%Z 4%Z 4%Z] true = XRaise RStack.
+Proof. vm_compute. reflexivity. Qed.
+Example real_whole_send_3 : extract_epochs_send 6 (mkkind false false) (mk_xe_state 11%Z [(1%Z, (mk_ce_state 8%Z 4%Z 3%Z false [[]; [23%Z; 1%Z; 94%Z]] 11%Z 3%Z)); (2%Z, (mk_ce_state 8%Z 4%Z 4%Z false [[]; [23%Z; 1%Z; 94%Z]] 11%Z 4%Z)); (4%Z, (mk_ce_state 14%Z 7%Z 5%Z false [] 14%Z 5%Z))] [(8%Z, [23%Z; 1%Z; 94%Z])] [] true) 0%Z [58%Z; 46%Z] [] [mkreq 0%Z (-5)%Z 7%Z 6%Z; mkreq 2%Z 8%Z 7%Z 7%Z] true = XRaise RDuplicate.
+Proof. vm_compute. reflexivity. Qed.
+Example real_whole_send_4 : extract_epochs_send 8 (mkkind false false) (mk_xe_state 10%Z [] [(6%Z, [18%Z; 50%Z; 6%Z; 27%Z])] [] false) 2%Z [57%Z; 91%Z; 40%Z] [3%Z] [mkreq 0%Z (-5)%Z 4%Z 2%Z; mkreq 1%Z 6%Z 4%Z 3%Z; mkreq 2%Z 4%Z 4%Z 4%Z] true = XRaise RStack.
+Proof. vm_compute. reflexivity. Qed.
+Example real_whole_send_5 : extract_epochs_send 8 (mkkind false false) (mk_xe_state 10%Z [(1%Z, (mk_ce_state 11%Z 3%Z 2%Z false [] 11%Z 2%Z)); (2%Z, (mk_ce_state 11%Z 2%Z 3%Z false [] 11%Z 3%Z))] [(0%Z, [93%Z; 56%Z; 60%Z; 86%Z]); (4%Z, []); (4%Z, [96%Z; 72%Z; 42%Z; 37%Z; 35%Z; 7%Z])] [] false) 9%Z [48%Z; 77%Z; 98%Z; 29%Z; 57%Z] [0%Z] [mkreq 4%Z 11%Z 3%Z 4%Z] true = XRaise RStack.
+Proof. vm_compute. reflexivity. Qed.
+Example real_whole_send_6 : extract_epochs_send 7 (mkkind false false) (mk_xe_state 4%Z [] [(0%Z, [73%Z; 63%Z; 89%Z; 41%Z])] [] false) 5%Z [] [] [mkreq 0%Z 0%Z 2%Z 1%Z; mkreq 1%Z (-2)%Z 2%Z 2%Z; mkreq 2%Z (-1)%Z 3%Z 3%Z] true = XRaise RStack.
+Proof. vm_compute. reflexivity. Qed.
+Example real_whole_send_7 : extract_epochs_send 8 (mkkind false false) (mk_xe_state 12%Z [(1%Z, (mk_ce_state 11%Z 6%Z 2%Z false [[64%Z]] 12%Z 2%Z)); (2%Z, (mk_ce_state 15%Z 7%Z 3%Z false [] 15%Z 3%Z))] [(0%Z, [99%Z; 85%Z; 97%Z; 15%Z; 99%Z; 37%Z]); (6%Z, [94%Z; 33%Z]); (8%Z, [19%Z]); (9%Z, [32%Z; 31%Z; 64%Z])] [] false) 9%Z [57%Z] [] [mkreq 2%Z 15%Z 7%Z 5%Z] true = XRaise RDuplicate.
+Proof. vm_compute. reflexivity. Qed.
+Example real_whole_send_8 : extract_epochs_send 6 (mkkind false false) (mk_xe_state 0%Z [] [] [] true) 2%Z [22%Z; 57%Z; 77%Z; 33%Z; 99%Z; 99%Z] [] [mkreq 0%Z (-4)%Z 2%Z 1%Z; mkreq 1%Z 5%Z 2%Z 2%Z; mkreq 1%Z 5%Z 2%Z 3%Z] true = XRaise RDuplicate.
+Proof. vm_compute. reflexivity. Qed.
+Example real_whole_send_9 : extract_epochs_send 6 (mkkind false false) (mk_xe_state 21%Z [(6%Z, (mk_ce_state 22%Z 3%Z 8%Z false [] 22%Z 8%Z))] [(15%Z, [66%Z; 32%Z; 39%Z; 81%Z; 74%Z; 84%Z])] [] false) 2%Z [78%Z; 80%Z] [0%Z] [mkreq 6%Z 22%Z 3%Z 9%Z] true = XRaise RDuplicate.
+Proof. vm_compute. reflexivity. Qed.
